@@ -269,8 +269,23 @@ class Interp:
         self.exec_block(st.body if t else st.orelse, frame)
 
     def st_Try(self, st, frame):
+        caught = []
+        for h in st.handlers:
+            if h.type is None:
+                caught.append("*")
+            elif isinstance(h.type, ast.Tuple):
+                caught.extend(ast.unparse(x) for x in h.type.elts)
+            else:
+                caught.append(ast.unparse(h.type))
+        stack = getattr(self.ctx, "try_stack", None)
+        if stack is None:
+            stack = self.ctx.try_stack = []
+        stack.append(caught)
         try:
-            self.exec_block(st.body, frame)
+            try:
+                self.exec_block(st.body, frame)
+            finally:
+                stack.pop()
         except RaiseSignal as e:
             for h in st.handlers:
                 if self.handler_matches(h, e):
